@@ -31,28 +31,46 @@ private theorem find_zipIdx (p : Setting → Bool) (l : List Setting) (n : Nat) 
       funext i
       simp only [Function.comp_apply]; omega
 
+/-- whatever the shape of the search predicate `P` of the generated loop, if it agrees pointwise with
+    `q` on the element, the pair search over `zipIdx` is the index search -/
+private theorem find_core (q : Setting → Bool) (l : List Setting) {P : Setting × Nat → Bool}
+    (hP : ∀ s i, P (s, i) = q s) :
+    ((l.zipIdx).find? P).map (·.2) = l.findIdx? q := by
+  have hPq : P = fun x => q x.1 := by funext ⟨s, i⟩; exact hP s i
+  subst hPq
+  have h := find_zipIdx q l 0
+  simp only [Nat.add_zero] at h
+  rw [h]
+  cases l.findIdx? q <;> rfl
+
+private theorem find_some (q : Setting → Bool) (l : List Setting) {P : Setting × Nat → Bool}
+    (hP : ∀ s i, P (s, i) = q s) {s : Setting} {i : Nat} (h : (l.zipIdx).find? P = some (s, i)) :
+    l.findIdx? q = some i := by
+  have := find_core q l hP
+  rw [h] at this
+  exact this.symm
+
+private theorem find_none (q : Setting → Bool) (l : List Setting) {P : Setting × Nat → Bool}
+    (hP : ∀ s i, P (s, i) = q s) (h : (l.zipIdx).find? P = none) :
+    l.findIdx? q = none := by
+  have := find_core q l hP
+  rw [h] at this
+  exact this.symm
+
 /-- `_find_setting_reference(find, in_list)` is the index of the first element that *is* `find`, else -1 -/
 theorem find_reference_index (find : Setting) (l : List Setting) :
     Gen.findSettingReference find l =
       match l.findIdx? (fun s => s.id == find.id) with
       | some i => (i : Int)
       | none => -1 := by
-  have h := find_zipIdx (fun s => s.id == find.id) l 0
   unfold Gen.findSettingReference
-  cases h1 : (l.zipIdx).find? (fun x => x.1.id == find.id) with
-  | none =>
-    rw [h1] at h
-    cases h2 : l.findIdx? (fun s => s.id == find.id) with
-    | none => simp_all
-    | some j => simp [h2] at h
-  | some x =>
-    rw [h1] at h
-    cases h2 : l.findIdx? (fun s => s.id == find.id) with
-    | none => simp [h2] at h
-    | some j =>
-      obtain ⟨s, i⟩ := x
-      simp [h2] at h
-      simp_all
+  split
+  · rename_i h
+    rewrite [find_some (fun s => s.id == find.id) l (by intro s i; first | rfl | grind) h]
+    rfl
+  · rename_i h
+    rewrite [find_none (fun s => s.id == find.id) l (by intro s i; first | rfl | grind) h]
+    rfl
 
 /-- THE MODEL'S `hasId` IS THE CODE'S `_find_setting_reference(...) >= 0` -/
 theorem find_reference_is_code (find : Setting) (l : List Setting) :
@@ -73,10 +91,17 @@ theorem find_reference_is_code (find : Setting) (l : List Setting) :
       exact ⟨l[j], List.getElem_mem _, hp⟩
     simp [this]
 
-/-- THE MODEL'S `sameRefs` IS THE CODE'S `_same_setting_references`: same length and pairwise the same
-    objects — so order matters (D22) and equal values do not suffice (D4) -/
-theorem same_references_is_code (a b : List Setting) : Gen.sameSettingReferences a b = sameRefs a b := by
-  unfold Gen.sameSettingReferences sameRefs
+/-- the pairwise test of the generated loop, in any shape that agrees pointwise with `x.id == y.id` -/
+private theorem same_all (a b : List Setting) {P : Setting × Setting → Bool}
+    (hP : ∀ x y, P (x, y) = (x.id == y.id)) :
+    (a.zip b).all P = (a.zip b).all (fun p => p.1.id == p.2.id) := by
+  have : P = fun p => p.1.id == p.2.id := by funext ⟨x, y⟩; exact hP x y
+  rw [this]
+
+/-- the fixed normal form: same length and pairwise the same objects -/
+private theorem same_core (a b : List Setting) :
+    sameRefs a b = (a.length == b.length && (a.zip b).all (fun p => p.1.id == p.2.id)) := by
+  unfold sameRefs
   induction a generalizing b with
   | nil => cases b <;> simp
   | cons x a ih =>
@@ -85,25 +110,54 @@ theorem same_references_is_code (a b : List Setting) : Gen.sameSettingReferences
     | cons y b =>
       have := ih b
       simp only [List.length_cons, List.zip_cons_cons, List.all_cons, List.map_cons] at this ⊢
-      rw [List.cons_beq_cons, ← this]
+      rw [List.cons_beq_cons, this]
       cases x.id == y.id <;> simp
 
-/-- THE MODEL'S `findRefs` IS THE CODE'S `_find_settings_references` -/
-theorem find_references_is_code (f l : List Setting) : Gen.findSettingsReferences f l = findRefs f l := by
-  unfold Gen.findSettingsReferences findRefs
-  rw [List.flatMap_def]
-  congr 1
-  apply List.map_congr_left
-  rintro ⟨s, i⟩ _
-  simp only
-  generalize l.zipIdx = z
+/-- THE MODEL'S `sameRefs` IS THE CODE'S `_same_setting_references`: same length and pairwise the same
+    objects — so order matters (D22) and equal values do not suffice (D4) -/
+theorem same_references_is_code (a b : List Setting) : Gen.sameSettingReferences a b = sameRefs a b := by
+  unfold Gen.sameSettingReferences
+  rewrite [same_all a b, same_core a b]
+  · generalize (a.zip b).all (fun p => p.1.id == p.2.id) = t
+    generalize a.length = n
+    generalize b.length = m
+    grind
+  · intro x y
+    first | rfl | grind
+
+/-- inner collect loop, for any body `H` that agrees pointwise with the normal form -/
+private theorem refs_inner (s : Setting) (i : Nat) (z : List (Setting × Nat))
+    {H : Setting × Nat → Option (Nat × Nat)}
+    (hH : ∀ s2 i2, H (s2, i2) = if s2.id == s.id then some (i, i2) else none) :
+    z.filterMap H = (z.filter (fun (s2, _) => s2.id == s.id)).map (fun (_, i2) => (i, i2)) := by
   induction z with
   | nil => rfl
   | cons x z ih =>
     obtain ⟨s2, i2⟩ := x
-    simp only [List.filterMap_cons, List.filter_cons]
-    rw [Bool.beq_comm (a := s.id)]
+    simp only [List.filterMap_cons, List.filter_cons, hH]
     cases s2.id == s.id <;> simp_all
+
+/-- outer loop, for any body `G` that agrees pointwise with the model's inner expression -/
+private theorem refs_outer (f l : List Setting) {G : Setting × Nat → List (Nat × Nat)}
+    (hG : ∀ s i, G (s, i) =
+      (l.zipIdx.filter (fun (s2, _) => s2.id == s.id)).map (fun (_, i2) => (i, i2))) :
+    f.zipIdx.flatMap G = findRefs f l := by
+  unfold findRefs
+  rw [List.flatMap_def]
+  congr 1
+  apply List.map_congr_left
+  rintro ⟨s, i⟩ _
+  exact hG s i
+
+/-- THE MODEL'S `findRefs` IS THE CODE'S `_find_settings_references` -/
+theorem find_references_is_code (f l : List Setting) : Gen.findSettingsReferences f l = findRefs f l := by
+  unfold Gen.findSettingsReferences
+  apply refs_outer
+  intro s i
+  try dsimp only
+  apply refs_inner
+  intro s2 i2
+  first | rfl | (dsimp only <;> first | rfl | grind) | grind
 
 /-- equal values are not the same object; a different order is not the same list -/
 example : Gen.sameSettingReferences [⟨1, "31".toList⟩] [⟨2, "31".toList⟩] = false := by decide
